@@ -76,6 +76,11 @@ def view(t, depth=0):
         return view(t[2][0][2][-1], depth + 1)
     if _is(t, *_SAME_BYTES) and t[2]:
         return view(t[2][0], depth + 1)
+    if len(t) == 4 and t[0] == "agg" and len(t[3]) == 1 and t[3][0][0] == "0" and str(t[1]).rsplit("::", 1)[-1] in ("Bytes",):
+        # the byte-string newtype of the workspace: the same bytes as what it wraps
+        return view(t[3][0][1], depth + 1)
+    if len(t) == 3 and t[0] == "field" and t[2] == "0" and isinstance(t[1], tuple) and len(t[1]) == 4 and t[1][0] == "agg" and str(t[1][1]).rsplit("::", 1)[-1] == "Bytes":
+        return view(dict(t[1][3]).get("0"), depth + 1)
     if t[0] == "upd" and isinstance(t[1], str) and (names.is_(t[1], "slice::copy_from_slice") or names.is_(t[1], "slice::clone_from_slice")) and len(t[3]) == 1:
         # the whole buffer is overwritten by the source (equal lengths or the call panics)
         if isinstance(t[2], tuple) and t[2] and t[2][0] in ("repeat", "array"):
